@@ -147,6 +147,7 @@ type parseOutcome struct {
 	SameReq  bool        `json:"same_request_bytes,omitempty"`
 	Ao       interface{} `json:"anchor_origin,omitempty"`
 	Panicked string      `json:"panicked,omitempty"`
+	Shapes   bool        `json:"shapes_judged_differently,omitempty"`
 }
 
 // evalParse concretizes (request, configuration), runs the real parser and says what an accepted
@@ -183,6 +184,25 @@ func evalParse(c *Concretizer, pc *pCase) (got parseOutcome, want parseOutcome, 
 		_, _ = parser.GetRevealValue(req)                  //nolint:errcheck
 
 		op, err := parser.Parse(pc.Cfg.NS, req)
+
+		// a rule whose violation has several concrete shapes (a foreign signed suffix; a reveal value or delta hash that is
+		// not the right one): every shape is judged like the first
+		if !o.Sfx || o.Reveal == "other" {
+			for w := 1; w <= 6; w++ {
+				shaped := o
+				shaped.ForceWay = w
+				req2, _ := c.buildRequest(&shaped, 0)
+
+				if _, err2 := operationparser.New(protocolFor(c, &shaped, &pc.Cfg, req2)).Parse(pc.Cfg.NS, req2); (err2 == nil) != (err == nil) {
+					got.Error = fmt.Sprintf("shape %d of the same deviation is judged differently: %v / %v", w, err, err2)
+					got.Accepted = err == nil
+					got.Shapes = true
+
+					return
+				}
+			}
+		}
+
 		if err != nil {
 			got.Error = err.Error()
 			return
@@ -229,7 +249,7 @@ func parserKey(pc *pCase) string {
 }
 
 func sameOutcome(got, want parseOutcome) bool {
-	if got.Panicked != "" || got.Accepted != want.Accepted {
+	if got.Panicked != "" || got.Shapes || got.Accepted != want.Accepted {
 		return false
 	}
 
